@@ -599,3 +599,38 @@ Proof. vm_compute. reflexivity. Qed.
 (* the regenerated table says: no caller swallows the I/O error of a write *)
 Lemma table_no_swallow : write_errors_swallowed = false.
 Proof. vm_compute. reflexivity. Qed.
+
+(* ---------- dbi.FlatfileMapping.add (in place) ---------- *)
+Lemma table_flat_next_id_first : gen.T17.FLAT_ADD_NEXT_ID_FIRST = true.
+Proof. vm_compute. reflexivity. Qed.
+
+Lemma flat_ok_mono n m recs : (n <= m)%N ->
+  forallb (fun r : N * str => N.ltb (fst r) n) recs = true ->
+  forallb (fun r : N * str => N.ltb (fst r) m) recs = true.
+Proof.
+  intros Hle H. rewrite forallb_forall in *. intros r Hr. specialize (H r Hr).
+  apply N.ltb_lt in H. apply N.ltb_lt. lia.
+Qed.
+
+Lemma flat_add_crash_safe st s k :
+  flat_ok st = true ->
+  let st' := fapply (firstn k (add_effects st s)) st in
+  flat_ok st' = true /\
+  (fl_recs st' = fl_recs st \/ fl_recs st' = fl_recs st ++ [(fl_next st, s)]).
+Proof.
+  intro H. unfold add_effects. rewrite table_flat_next_id_first. unfold flat_ok in *.
+  destruct k as [|[|k]]; cbn [firstn fapply fold_left fapply1 fl_next fl_recs].
+  - split; [exact H|left; reflexivity].
+  - split; [|left; reflexivity]. apply (flat_ok_mono (fl_next st)); [lia|exact H].
+  - replace (firstn k []) with (@nil feff) by (now destruct k).
+    cbn [fold_left fl_next fl_recs]. split; [|right; reflexivity].
+    rewrite forallb_app. apply andb_true_iff. split.
+    + apply (flat_ok_mono (fl_next st)); [lia|exact H].
+    + cbn [forallb fst]. rewrite andb_true_r. apply N.ltb_lt. lia.
+Qed.
+
+(* the other order (record first, header in a finally:) hands the same id out twice after a crash *)
+Example flat_record_first_breaks :
+  let st := Flat 3 [(1, [97]); (2, [98])] in
+  flat_ok st = true /\ flat_ok (fapply [AppendRec 3 [99]] st) = false.
+Proof. vm_compute. split; reflexivity. Qed.
